@@ -79,6 +79,10 @@ def table_case(draw, adaptive=None, allow_f32=True, max_n=120, kmin=-3):
             case["n_steps"] = draw(st.integers(1, 20))  # ignored by an adaptive schedule
         if case["route"] == "base":
             case["beta_tolerance"] = draw(st.sampled_from([1e-1, 1e-2, 1e-3, 1e-4, 1e-6, 1e-8]))
+    if case["route"] == "base" and draw(st.integers(0, 5)) == 0:
+        case["store_history"] = False  # populations are then not recorded (documented option of the base signature)
+    if ad:
+        pass
     else:
         big = 300 if ns == "numpy" else 40
         case["n_steps"] = draw(st.one_of(st.integers(1, 12), st.integers(1, 30), st.integers(1, big)))
@@ -217,6 +221,8 @@ def run(case, ctx=None, likelihood_wrapper=None, extra_kwargs=None, flow=None, w
             res.aspire = None
             if "beta_tolerance" in case:
                 kw["beta_tolerance"] = case["beta_tolerance"]
+            if case.get("store_history") is False:
+                kw["store_sample_history"] = False
             try:
                 res.samples = s.sample(case["n"], **kw)
             finally:
